@@ -50,13 +50,38 @@ NUM_SPECIAL = ["NaN", "nan", "Inf", "+Inf", "-Inf", "infinity", "-Infinity", "0x
                ".5", "5.", "1E3", "1e+3", "1e-3", "007", "00.50",
                "300000.87", "131072.13", "16777217", "1234567.89", "-250000.37", "99999.995", "33554433.5"]
 
+def number_wide(r):
+    """a lexeme from the whole grammar strconv.ParseFloat accepts: every sign with every body shape (decimal with / without point and
+    exponent, hexadecimal mantissa with binary exponent in both letter cases and with underscores, the spellings of infinity and NaN)"""
+    sign = r.choice(["", "+", "-"])
+    k = r.random()
+    digs = lambda n, alpha="0123456789": "".join(r.choice(alpha) for _ in range(n))
+    if k < 0.45:
+        ip, fp = digs(r.randint(0, 6)), digs(r.randint(0, 5))
+        if not ip and not fp: ip = "7"
+        body = ip + ("." + fp if fp or r.random() < 0.2 else "")
+        if r.random() < 0.5: body += r.choice("eE") + r.choice(["", "+", "-"]) + str(r.choice([0, 1, 2, 3, 7, 15, 22, 23, 30, 300, 308, 310, 320, 324, 400, 401, 5000]))
+        return sign + body
+    if k < 0.8:
+        hexd = r.choice(["0123456789abcdef", "0123456789ABCDEF", "0123456789abcdefABCDEF"])
+        ip, fp = digs(r.randint(0, 14), hexd), digs(r.randint(0, 6), hexd)
+        if not ip and not fp: ip = "1"
+        m = ip + ("." + fp if fp or r.random() < 0.2 else "")
+        if r.random() < 0.25 and len(m) > 2 and "." not in m[:2]: j = r.randint(1, len(m) - 1); m = m[:j] + "_" + m[j:]     # may or may not be a legal position
+        if r.random() < 0.1: m = "_" + m
+        return sign + r.choice(["0x", "0X"]) + m + r.choice("pP") + r.choice(["", "+", "-"]) + str(r.choice([0, 1, 2, 4, 10, 52, 53, 64, 1000, 1023, 1024, 1074, 1075, 1100]))
+    if k < 0.93:
+        w = r.choice(["inf", "infinity"])
+        return sign + "".join(c.upper() if r.random() < 0.5 else c for c in w)
+    return "".join(c.upper() if r.random() < 0.5 else c for c in "nan")
+
 def number(r, envelope=False, special=0.12):
     """a lexeme strconv.ParseFloat accepts. envelope=True: small dyadic values whose sums/products and two-decimal
     rendering are exact in binary64"""
     if envelope:
         return r.choice(["1", "2", "3", "4", "0.5", "1.5", "2.5", "0.25", "0.75", "-1", "-2", "-0.5", "-1.5", "10", "100", "-3", "0", "8", "0.5", "12", "20"])
     x = r.random()
-    if x < special: return r.choice(NUM_SPECIAL)
+    if x < special: return r.choice(NUM_SPECIAL) if r.random() < 0.6 else number_wide(r)
     if x < special + 0.06:   # long decimals (16-19 significant digits)
         nd = r.randint(15, 20)
         ds = "".join(r.choice("0123456789") for _ in range(nd)).lstrip("0") or "1"
@@ -72,7 +97,7 @@ def number(r, envelope=False, special=0.12):
     if r.random() < 0.05: s += r.choice(["e2", "e-2", "E1", "e+1"])
     return s
 
-BAD_NUMBERS = ["abc", "1.2.3", "1,5", "--1", "1e", "e5", "0x", "0x1", "1__0", "_1", "1_", "infi", "+nan", "-nan", "1e999", "-1e400", "１", "1O", "..", "+", "+-1", "1e5x", "1 e5"]
+BAD_NUMBERS = ["0x1", "0x1p", "0x.p1", "1e+", "1e-", "._5", "0x1_p1", "0x1p_1", "inf1", "infinit", "nanx", "-nan", "+NaN", "0b1", "0o7", "1p3", "0x1e3", "1_0e2", "0x_", "+.", "-e1", "0X1P", "InfinityX", "1e1_0", "abc", "1.2.3", "1,5", "--1", "1e", "e5", "0x", "0x1", "1__0", "_1", "1_", "infi", "+nan", "-nan", "1e999", "-1e400", "１", "1O", "..", "+", "+-1", "1e5x", "1 e5"]
 
 # ---------------------------------------------------------------------------
 # abstract files
